@@ -393,6 +393,7 @@ fn extra_cases() -> &'static Vec<ExtraCase> {
         // texture names that collide under common 32-bit hashes / FxHash, or stand in a suffix relation
         let mut pairs: Vec<(String, String)> = vcore::collide::pairs().iter().map(|(_, a, b)| (a.clone(), b.clone())).collect();
         pairs.extend(vcore::sjis::suffix_pairs());
+    pairs.extend(vcore::sjis::case_pairs());
         for (i, (a, b)) in pairs.iter().enumerate() {
             if a.is_empty() || b.is_empty() {
                 continue;
